@@ -60,6 +60,18 @@ def run(rep, rng, tier, replay=None):
         masses = [Fr(mm) for mm in n_["masses"]]
         shifts = [[Fr(s) for s in sh] for sh in n_["shifts"]]
         ext = {int(k): [Fr(q) for q in mom] for k, mom in c["ext_mom"].items()}
+        # "generic Euclidean kinematics": no proper non-empty subset of the external momenta may sum to zero (otherwise a monomial of F
+        # that the graph-theoretic V_tr counts on has coefficient zero); such draws are outside the quantifier
+        evs = sorted(ext)
+        generic = True
+        for mask in range(1, (1 << len(evs)) - 1):
+            tot = [sum(ext[evs[i]][d] for i in range(len(evs)) if mask >> i & 1) for d in range(D)]
+            if all(t == 0 for t in tot):
+                generic = False
+                break
+        if not generic:
+            skipped += 1
+            continue
         coef, trees = f_polynomial(n_["pairs"], ext, masses)
         NT = len(trees)
         Vx, ratio, Lm, _, _ = X.v_poly(x, n_["sig"], shifts, masses)
@@ -109,7 +121,7 @@ def run(rep, rng, tier, replay=None):
         if bad:
             rep.violation("property", "; ".join(bad[:3]), case=c, failing_input=True, what="Symanzik/tropical bounds violated")
         rep.sample(dict(graph=c["family"], N_T=NT, c_min=float(cmin), C_sum=float(csum), U_over_Utr=float(u / Utr), V_over_Vtr=float(v / Vtr)))
-    rep.cov["skipped_cancellation_above_1e8_or_no_kinematics"] = skipped
+    rep.cov["skipped_cancellation_above_1e8_or_non_generic_kinematics"] = skipped
     rep.cov["closest_approach_to_bounds(ratio/lower, ratio/upper)"] = worst
     rep.cov["rule"] = ("accepted connected graphs with momentum-conserving generic kinematics (external momenta on all vertices), masses on massive edges; a quarter of the points with "
                        "xi coordinates at 1e-12/1e-6/1-1e-12 and a quarter with edge draws at 1e-15 / 1-2^-53 (corners, low-probability sectors); u, v, jacobian, tropical values vs "
